@@ -227,9 +227,8 @@ Ltac use_sim_set :=
 Lemma sim_vset root d : d_set (abs root) d = (abs (fst (vset root d)), abs_out (snd (vset root d))).
 Proof.
   unfold d_set, vset. destruct (parse d) as [[[es t] rest]|]; [|reflexivity].
-  destruct (last_is_collection es).
-  - use_sim_set. destruct (descend_set es _ root) as [r' [e|u]]; reflexivity.
-  - destruct t; use_sim_set; destruct (descend_set es _ root) as [r' [e|u]]; reflexivity.
+  destruct (last_is_collection es); [reflexivity|].
+  destruct t; try reflexivity; use_sim_set; destruct (descend_set es _ root) as [r' [e|u]]; reflexivity.
 Qed.
 
 Lemma sim_vdelete root d :
@@ -247,9 +246,8 @@ Lemma sim_vset_subtree_then {A B} (h : A -> B) root d (inner : node -> node * A)
 Proof.
   intros H. unfold d_set_subtree_then, vset_subtree_then.
   destruct (parse d) as [[[es t] rest]|]; [|reflexivity].
-  destruct (is_eof t).
-  - apply sim_set; exact H.
-  - use_sim_set. destruct (descend_set es _ root) as [r' [e|u]]; reflexivity.
+  destruct (is_eof t); [|reflexivity].
+  apply sim_set; exact H.
 Qed.
 
 Lemma sim_vset_subtree root d :
